@@ -6,17 +6,20 @@ TARGETS = ['pytezos.michelson.sections.view.ViewSection.match', 'pytezos.michels
            'pytezos.michelson.sections.view.ViewSection.check_code']
 STUBS = []
 BOUNDS = {'quick': 'names: length 0..40 (symbolic), one solver-chosen character (7 allowed classes + 8 forbidden characters) at the first/middle/last position; '
-                   'code: a restricted instruction under <= 2 nested wrappers out of 9 (sequence, DIP, IF branches, MAP/LOOP bodies, LAMBDA, LAMBDA_REC, pushed lambda literal) '
+                   'code: a restricted instruction under <= 2 nested wrappers out of 13 (sequence, DIP, IF branches, MAP/LOOP bodies, LAMBDA, LAMBDA_REC, lambda literals pushed directly and nested 1..2 levels inside option/list/map/or/comb literals) '
                    'with solver-chosen siblings before/after at each level',
           'thorough': 'same with <= 3 nested wrappers'}
 OUTSIDE = ['code trees outside the wrapper/sibling grammar', 'names with more than one unusual character']
 ASSUMPTIONS = ['rejection rule exactly as stated by the property (name > 31 chars or char outside [A-Za-z0-9_.%@]; SELF anywhere; TRANSFER_TOKENS/CREATE_CONTRACT/SET_DELEGATE outside LAMBDA/LAMBDA_REC/pushed lambda)']
 
-CHARS = ['a', 'Z', '7', '_', '.', '%', '@', '\x00', ' ', '-', '/', '#', '"', '\n', '\x7f']
+CHARS = [chr(i) for i in range(256)]          # every Latin-1 character
+LENGTHS = [0, 1, 2, 3, 16, 30, 31, 32, 33, 40]
 ALLOWED = set('abcdefghijklmnopqrstuvwxyzABCDEFGHIJKLMNOPQRSTUVWXYZ0123456789_.%@')
 LEAVES = ['DROP', 'SELF', 'TRANSFER_TOKENS', 'CREATE_CONTRACT', 'SET_DELEGATE']
 RESTRICTED = ('TRANSFER_TOKENS', 'CREATE_CONTRACT', 'SET_DELEGATE')
-WRAPPERS = ['SEQ', 'DIP', 'IF-then', 'IF-else', 'MAP', 'LOOP', 'LAMBDA', 'LAMBDA_REC', 'PUSH-lambda']
+WRAPPERS = ['SEQ', 'DIP', 'IF-then', 'IF-else', 'MAP', 'LOOP', 'LAMBDA', 'LAMBDA_REC', 'PUSH-lambda', 'PUSH-option-lambda', 'PUSH-list-option-lambda', 'PUSH-map-or-lambda',
+            'PUSH-comb3-lambda']
+LAMBDA_WRAPPERS = ('LAMBDA', 'LAMBDA_REC', 'PUSH-lambda', 'PUSH-option-lambda', 'PUSH-list-option-lambda', 'PUSH-map-or-lambda', 'PUSH-comb3-lambda')
 SIB_BEFORE = [None, 'LAMBDA{DROP}', 'PUSH-lambda{DROP}']
 SIB_AFTER = [None, 'DROP', 'SET_DELEGATE']
 UNIT = {'prim': 'unit'}
@@ -46,8 +49,18 @@ def wrap(w, body):
         return {'prim': 'LAMBDA', 'args': [UNIT, UNIT, body]}
     if w == 'LAMBDA_REC':
         return {'prim': 'LAMBDA_REC', 'args': [UNIT, UNIT, body]}
+    LT = {'prim': 'lambda', 'args': [UNIT, UNIT]}
+    NAT = {'prim': 'nat'}
     if w == 'PUSH-lambda':
-        return {'prim': 'PUSH', 'args': [{'prim': 'lambda', 'args': [UNIT, UNIT]}, body]}
+        return {'prim': 'PUSH', 'args': [LT, body]}
+    if w == 'PUSH-option-lambda':
+        return {'prim': 'PUSH', 'args': [{'prim': 'option', 'args': [LT]}, {'prim': 'Some', 'args': [body]}]}
+    if w == 'PUSH-list-option-lambda':
+        return {'prim': 'PUSH', 'args': [{'prim': 'list', 'args': [{'prim': 'option', 'args': [LT]}]}, [{'prim': 'Some', 'args': [body]}]]}
+    if w == 'PUSH-map-or-lambda':
+        return {'prim': 'PUSH', 'args': [{'prim': 'map', 'args': [NAT, {'prim': 'or', 'args': [NAT, LT]}]}, [{'prim': 'Elt', 'args': [{'int': '0'}, {'prim': 'Right', 'args': [body]}]}]]}
+    if w == 'PUSH-comb3-lambda':
+        return {'prim': 'PUSH', 'args': [{'prim': 'pair', 'args': [NAT, NAT, LT]}, {'prim': 'Pair', 'args': [{'int': '0'}, {'int': '0'}, body]}]}
     raise KeyError(w)
 
 
@@ -77,7 +90,7 @@ def expected_code_reject(op, levels):
     for w, sb, sa in levels:
         if sa in RESTRICTED and not outer_lambda:
             reject = True
-        if w in ('LAMBDA', 'LAMBDA_REC', 'PUSH-lambda'):
+        if w in LAMBDA_WRAPPERS:
             outer_lambda = True
     in_lambda = outer_lambda
     if op in RESTRICTED and not in_lambda:
@@ -146,17 +159,18 @@ def _name(n, pos, ch):
 
 
 def sym_name(P, ex):
-    n = mbv._choose(ex, 'n', 0, 40)
+    n = LENGTHS[mbv._choose(ex, 'n', 0, len(LENGTHS) - 1)]
     pos = mbv._choose(ex, 'pos', 0, 2)
     ch = mbv._choose(ex, 'ch', 0, len(CHARS) - 1)
-    r = conc_name(P, {'n': n, 'pos': pos, 'ch': ch})
+    r = conc_name(dict(P, raw_n=True), {'n': n, 'pos': pos, 'ch': ch})
     if not r['ok']:
         ex.fail_here(f'view name {r["name"]!r} {r["observed"]}, expected {r["expected"]}')
     ex.check(True)
 
 
 def conc_name(P, w):
-    name = _name(int(w['n']), int(w['pos']), int(w['ch']))
+    n = int(w['n'])
+    name = _name(LENGTHS[n] if n < len(LENGTHS) and not P.get('raw_n') else n, int(w['pos']), int(w['ch']))
     exp_reject = len(name) > 31 or any(c not in ALLOWED for c in name)
     got = run_view(name, [{'prim': 'DROP'}, {'prim': 'UNIT'}])
     return {'ok': (got != 'accepted') == exp_reject, 'name': name, 'observed': got, 'expected': 'rejected' if exp_reject else 'accepted'}
@@ -166,7 +180,7 @@ def obligations(tier):
     q = tier == 'quick'
     depth = 2 if q else 3
     obs = [Ob('name', 'bvx', sym_name, conc_name, timeout=300, opts={'W': 16},
-              bounds='length 0..40, position first/middle/last, 15 characters', targets=TARGETS)]
+              bounds='lengths 0,1,2,3,16,30..33,40; one character at the first/middle/last position ranges over all 256 Latin-1 characters, the others are letters', targets=TARGETS)]
     for op in range(len(LEAVES)):
         for w0 in range(len(WRAPPERS)):
             obs.append(Ob(f'code/{LEAVES[op]}/outer={WRAPPERS[w0]}', 'bvx', sym_code, conc_code, {'op': op, 'w0': w0, 'depth': depth}, timeout=300 if q else 1800,
